@@ -384,7 +384,10 @@ def check_select(prog, sm, scalar):
     """select_mms(key): every path that does not terminate leaves the selection pointer on find(key)->second, under the path
     condition that key is registered; the registry itself is not modified"""
     E = terms.Evaluator(prog, scalar=scalar, noreturn=('masa_exit',), opaque=('list_mms',))
+    E.unroll_paths = True                     # a lookup helper returning the object or NULL continues select_mms once per path
+    E.assume_nonnull_mapped = (MAP,)          # registered values are objects created by new (C12.H2 / C19.O1), never NULL
     outs = E.run(sm)
+    outs = list(outs) + [p_ for p_ in E.trace.exit_paths if p_ not in outs]
     key = ('sym', sm.params[0]['n'])
     problems = []
     good = [o for o in outs if o.kind != 'exit']
